@@ -379,6 +379,12 @@ func requestedIn(base *loaderlab.Result) []int {
 // makes the dependent fetch see null, so that probe is left out for such plans
 var skipNullEntities bool
 
+// abortKinds: also inject the kinds after which the resolve returns an error (see loaderlab.FaultKind.Aborts)
+var abortKinds bool
+
+// shapeRot rotates the variants of the shape faults from plan to plan (seed and index of the plan)
+var shapeRot int
+
 func faultSets(p *loaderlab.Plan, r *common.Rand, req []int, tier string) []faultSet {
 	var sets []faultSet
 	for _, fid := range req {
@@ -389,6 +395,46 @@ func faultSets(p *loaderlab.Plan, r *common.Rand, req []int, tier string) []faul
 			if k.Applicable(p.Fetches[fid].Kind) {
 				sets = append(sets, one(fid, k))
 			}
+		}
+	}
+	// the selected data path holds null / a wrong kind / nothing: per requested fetch every shape plain (no errors entry,
+	// status 200) and one more variant of it (errors entry / 500 / both, rotating); `_entities` items of a wrong kind
+	// and `data` of a wrong kind on a root fetch abort the resolve (finding wrong-kind-data-aborts-response): only with -abortkinds
+	for _, fid := range req {
+		fk := p.Fetches[fid].Kind
+		for sh := range loaderlab.ShapeNames {
+			for _, v := range []int{0, 1 + (fid+sh+shapeRot)%3} {
+				if fk == loaderlab.FSingle && sh == 3 && skipNullEntities {
+					continue // `data: {}` of a root fetch is an answer, not a failure: a dependent fetch legitimately runs
+				}
+				if k := loaderlab.FShape(sh, v); k.Applicable(fk) && (abortKinds || !k.Aborts(fk)) {
+					sets = append(sets, one(fid, k))
+				}
+			}
+		}
+		if abortKinds && fk != loaderlab.FSingle {
+			for it := range loaderlab.ItemNames {
+				sets = append(sets, one(fid, loaderlab.FItems(it, (fid+it+shapeRot)%4)))
+			}
+		}
+	}
+	// pairs: a shape fault on one fetch, an ordinary kind on another (own random stream: the older sets stay as they were)
+	if len(req) >= 2 {
+		r2 := common.NewRand(uint64(shapeRot)*0x9E3779B97F4A7C15 + uint64(len(sets)))
+		for i := 0; i < 6; i++ {
+			perm := r2.Perm(len(req))
+			a, b := req[perm[0]], req[perm[1]]
+			k := loaderlab.FShape(r2.Pick(len(loaderlab.ShapeNames)), r2.Pick(4))
+			if !k.Applicable(p.Fetches[a].Kind) || (k.Aborts(p.Fetches[a].Kind) && !abortKinds) || (p.Fetches[a].Kind == loaderlab.FSingle && skipNullEntities) {
+				continue
+			}
+			fs := faultSet{a: fault{K: k}}
+			if r2.Chance(1, 2) {
+				fs[b] = fault{K: loaderlab.FTransport + loaderlab.FaultKind(r2.Pick(int(loaderlab.FNullData-loaderlab.FTransport)+1))}
+			} else if k2 := loaderlab.FShape(r2.Pick(4), r2.Pick(4)); k2.Applicable(p.Fetches[b].Kind) && !(p.Fetches[b].Kind == loaderlab.FSingle && skipNullEntities) {
+				fs[b] = fault{K: k2}
+			}
+			sets = append(sets, fs)
 		}
 	}
 	if len(req) < 2 {
@@ -512,6 +558,7 @@ func main() {
 		mode = "mixed"
 	}
 	curMode = mode
+	abortKinds = a["abortkinds"] == "1"
 	if a["out"] != "" && a["out"] != "-" {
 		crumbPath = a["out"] + ".current"
 	}
@@ -525,6 +572,7 @@ func main() {
 		for idx := 0; idx < n; idx++ {
 			p, r, o := makePlan(seed, idx, mode)
 			skipNullEntities = o.nullableReq || o.depSingles // a null entity is no failure: a dependent Single fetch legitimately runs
+			shapeRot = int((seed+uint64(idx))%1000003)
 			crumb(seed, idx, mode, faultSet{})
 			var sets []faultSet
 			if o.taint {
